@@ -699,13 +699,20 @@ func GenInputs(model string, r *core.Rand, T int, ps PSet) [][]float64 {
 			}
 		}
 	}
-	// an input sitting exactly on a parameter threshold it is compared with (outflow == bank-full flow)
-	if model == "InstreamFineSediment" && r.Bool(0.5) {
-		if pi := paramIndex(desc, "bankFullFlow"); pi >= 0 && ps[pi][0] > 0 {
-			o := byName("outflow")
+	// an input sitting exactly on the parameter (or constant) it is compared with: outflow == bank-full flow,
+	// rainfall == erosive-rain threshold, flow == the "effectively zero" constant
+	if pt, ok := paramTies[model]; ok && r.Bool(0.5) {
+		v := pt.value
+		if pt.param != "" {
+			v = 0
+			if pi := paramIndex(desc, pt.param); pi >= 0 {
+				v = ps[pi][0]
+			}
+		}
+		if o := byName(pt.input); o >= 0 && v > 0 {
 			for t := 0; t < T; t++ {
 				if r.Bool(0.15) {
-					in[o][t] = ps[pi][0]
+					in[o][t] = v
 				}
 			}
 		}
@@ -722,6 +729,17 @@ func GenInputs(model string, r *core.Rand, T int, ps PSet) [][]float64 {
 		}
 	}
 	return in
+}
+
+// paramTies: an input and the parameter (or, with param "", the constant) it is compared with.
+var paramTies = map[string]struct {
+	input, param string
+	value        float64
+}{
+	"InstreamFineSediment":       {"outflow", "bankFullFlow", 0},
+	"StorageDissolvedDecay":      {"outflow", "bankFullFlow", 0},
+	"USLEFineSedimentGeneration": {"rainfall", "RainThreshold", 0},
+	"PassLoadIfFlow":             {"flow", "", 1e-8},
 }
 
 // tiePairs: inputs that a kernel compares with or subtracts from one another.
